@@ -13,8 +13,16 @@ TRUSTED = ["Python's eval is not modelled: expressions of the integer subset (+ 
 ASSUMPTIONS = ["instance arguments are integers"]
 
 # ---------- expressions
+LISTS = {}      # list-valued parameters of the template being generated: name -> number of entries
+
 def gen_expr(rng, names, depth=0):
     r = rng.random()
+    if LISTS and r < 0.25:
+        # a subscript into a list-valued argument, or into a literal list (only the subscript varies)
+        if rng.random() < 0.6:
+            nm = rng.choice(sorted(LISTS)); return ["idx", nm, rng.randrange(LISTS[nm])]
+        vals = [rng.choice([1, 2, 4, 6, 8]) for _ in range(rng.choice([2, 3]))]
+        return ["lit", vals, rng.randrange(len(vals))]
     if depth > 2 or r < 0.35:
         return ["n", rng.choice([0, 1, 2, 3, 5, 7])] if (not names or rng.random() < 0.4) else ["v", rng.choice(names)]
     if r < 0.42: return ["neg", gen_expr(rng, names, depth + 1)]
@@ -27,10 +35,12 @@ def expr_text(rng, e, top=True):
     k = e[0]
     if k == "n": return str(e[1])
     if k == "v": return e[1]
+    if k == "idx": return "%s[%d]" % (e[1], e[2])
+    if k == "lit": return "[%s][%d]" % (rng.choice([", ", ","]).join(map(str, e[1])), e[2])
     if k == "neg": return "-" + expr_text(rng, e[1], False) if e[1][0] in ("n", "v") else "-(" + expr_text(rng, e[1], False) + ")"
     sp = rng.choice(["", " "])
     s = "(" + expr_text(rng, e[1], False) + ")" + sp + k + sp + "(" + expr_text(rng, e[2], False) + ")"
-    if e[1][0] in ("n", "v") and e[2][0] in ("n", "v"):
+    if e[1][0] in ("n", "v", "idx") and e[2][0] in ("n", "v", "idx"):
         s = expr_text(rng, e[1], False) + sp + k + sp + expr_text(rng, e[2], False)
         if not top: s = "(" + s + ")"
     return s
@@ -42,6 +52,8 @@ def eval_ast(e, env):
         if e[1] not in env: raise KeyError(e[1])
         return env[e[1]]
     if k == "neg": return -eval_ast(e[1], env)
+    if k == "idx": return env[e[1]][e[2]]
+    if k == "lit": return e[1][e[2]]
     a, b = eval_ast(e[1], env), eval_ast(e[2], env)
     if k == "+": return a + b
     if k == "-": return a - b
@@ -57,7 +69,11 @@ def tok_text(rng, toks, table):
     for t in toks:
         if t[0] == "t": out += t[1]
         elif t[0] == "e":
-            src = rng.choice(["", " "]) + expr_text(rng, t[1]) + rng.choice(["", " "])
+            rev = table.setdefault(None, {})        # expression -> the spelling used before in this template
+            key = repr(t[1])
+            if key in rev and rng.random() < rev.get("__p", 0.7): src = rev[key]
+            else: src = rng.choice(["", " "]) + expr_text(rng, t[1]) + rng.choice(["", " "])
+            rev[key] = src
             table[src.strip()] = t[1]; out += "<" + src + ">"
         else:
             out += "{" + ",".join(tok_text(rng, alt, table) for alt in t[1]) + "}"
@@ -108,6 +124,10 @@ def gen_template(rng, compile_level):
     params = rng.sample(["n", "m", "toe", "rec"], rng.choice([0, 1, 2, 3]))
     args = [rng.choice([0, 1, 2, 3, 4, 6]) for _ in params]
     names = list(params)
+    LISTS.clear()
+    if rng.random() < 0.08:
+        # a list-valued argument (the command line evaluates its arguments): used through subscripts only
+        k = rng.choice([2, 3]); params.append("lens"); args.append([rng.choice([1, 2, 3, 5]) for _ in range(k)]); LISTS["lens"] = k
     use_tag = compile_level and rng.random() < 0.3
     if use_tag:
         # a text-valued argument (the command line passes words through unchanged), used only inside a name
@@ -117,7 +137,7 @@ def gen_template(rng, compile_level):
         lines.append(("line", [("t", "declare component T%s: x -> x" % ("(%s)" % ", ".join(params) if params else ""))]))
         def num(): return ("e", gen_expr(rng, names)) if names and rng.random() < 0.7 else ("t", str(rng.choice([1, 2, 3, 4])))
         for _ in range(rng.choice([0, 1, 2])):
-            nm = rng.choice(["tot", "k2"] + params) if params else rng.choice(["tot", "k2"])
+            nm = rng.choice(["tot", "k2"] + [p for p in params if p != "lens"])
             lines.append(("length", nm, gen_expr(rng, names)));
             if nm not in names: names.append(nm)
         lines.append(("line", [("t", 'sequence x = "'), num(), ("t", 'N"')]))
@@ -143,12 +163,27 @@ def gen_template(rng, compile_level):
         for _ in range(rng.choice([1, 2, 4, 6])):
             r = rng.random()
             if r < 0.2:
-                nm = rng.choice(["tot", "k2", "len_a"] + params)
+                nm = rng.choice(["tot", "k2", "len_a"] + [p for p in params if p != "lens"])
                 lines.append(("length", nm, gen_expr(rng, names)))
                 if nm not in names: names.append(nm)
             else:
                 lines.append(gen_free_line(rng, names))
-    return {"params": params, "args": args, "lines": lines}
+    uses_lists = bool(LISTS); LISTS.clear()
+    return {"params": params, "args": args, "lines": lines, "_lists": uses_lists}
+
+def ladder_template(rng, compile_level):
+    """one name re-defined by `length` lines between uses of one and the same expression text"""
+    n0 = rng.choice([2, 3, 5]); step = rng.choice([1, 2])
+    bump = ("length", "n", ["+", ["v", "n"], ["n", step]])
+    use = ("e", rng.choice([["v", "n"], ["+", ["v", "n"], ["n", 1]]]))
+    if compile_level:
+        lines = [("line", [("t", "declare component T(n): x -> x")]), ("line", [("t", 'sequence x = "'), use, ("t", 'N"')]), bump,
+                 ("line", [("t", 'sequence q1 = "'), use, ("t", 'S" x')]), bump, ("line", [("t", 'strand S1 = x "'), use, ("t", 'T" x*')]),
+                 ("line", [("t", 'strand Z = x "2A"')]),
+                 ("line", [("t", "structure W = Z : "), ("t", "U"), ("e", ["+", ["n", 2], ["n", 0]]), ("t", " U"), ("e", ["v", "__lenx"])])]
+    else:
+        lines = [("line", [("t", "rung "), use]), bump, ("line", [("t", "rung "), use, ("t", " "), ("g", [[("t", "a")], [use]])]), bump, ("line", [use, ("t", " end")])]
+    return {"params": ["n"], "args": [n0], "lines": lines, "_lists": False, "_same": True}
 
 def bounded(tpl, limit=400):
     """every expression of the template evaluates to a small number (a region of 10^13 nucleotides is a
@@ -176,7 +211,7 @@ def bounded(tpl, limit=400):
 
 def render(rng, tpl):
     """text lines (list of str incl. newlines, the last possibly without), expression table"""
-    table = {}
+    table = {None: ({"__p": 1.0} if tpl.get("_same") else {})}
     out = []
     env = dict(zip(tpl["params"], tpl["args"]))
     lenx = None
@@ -188,6 +223,7 @@ def render(rng, tpl):
             toks = [("e", tpl["_lenx"]) if (t[0] == "e" and t[1] == ["v", "__lenx"]) else t for t in ln[1]]
             out.append(tok_text(rng, toks, table))
         if rng.random() < 0.15: out[-1] += "  # note {x,y} <1+1>"
+    table.pop(None, None)
     text_lines = [l + "\n" for l in out]
     if rng.random() < 0.3: text_lines[-1] = text_lines[-1][:-1]       # no final newline
     if rng.random() < 0.2: text_lines.insert(rng.randrange(1, len(text_lines) + 1), "\n")
@@ -213,6 +249,7 @@ def impl_case(case):
     return out
 
 def sexp_expr(e):
+    if e[0] in ("idx", "lit"): return ["n", 0]      # not expressible in the model's integer expressions (such templates are compared with the oracle only)
     return ["n", e[1]] if e[0] == "n" else ["v", e[1]] if e[0] == "v" else ["neg", sexp_expr(e[1])] if e[0] == "neg" else [e[0], sexp_expr(e[1]), sexp_expr(e[2])]
 
 def run(tier, seed, build):
@@ -221,8 +258,12 @@ def run(tier, seed, build):
     cases = []
     for i in range(n):
         compile_level = rng.random() < 0.35
-        tpl = gen_template(rng, compile_level)
-        while not bounded(tpl): tpl = gen_template(rng, compile_level)
+        if i < 4:
+            tpl = ladder_template(rng, i % 2 == 0)
+            compile_level = i % 2 == 0
+        else:
+            tpl = gen_template(rng, compile_level)
+            while not bounded(tpl): tpl = gen_template(rng, compile_level)
         env0 = dict(zip(tpl["params"], tpl["args"]))
         if compile_level:
             # the structure needs the length of x: an expression equal to it
@@ -254,8 +295,8 @@ def run(tier, seed, build):
             cases[-1]["compile"] = False
     # process_list is applied to the lines after the declaration when compiling; at text level we feed all lines
     impl = fw.run_impl("props.c13", "impl_case", [{k: c[k] for k in ("params", "args", "lines", "compile", "expanded")} for c in cases])
-    for c in cases: c["nomodel"] = any(isinstance(a, str) for a in c["args"])     # the model's environment holds integers only
-    reqs = [["C13", [c["lines"], [[p, (0 if isinstance(a, str) else a)] for p, a in zip(c["params"], c["args"])], [[src, sexp_expr(e)] for src, e in c["table"].items()]]] for c in cases]
+    for c in cases: c["nomodel"] = any(not isinstance(a, int) for a in c["args"])     # the model's environment holds integers only
+    reqs = [["C13", [c["lines"], [[p, (a if isinstance(a, int) else 0)] for p, a in zip(c["params"], c["args"])], [[src, sexp_expr(e)] for src, e in c["table"].items()]]] for c in cases]
     model = fw.run_model(reqs)
     failures = []; nontrivial = set()
     dist = {"text_level": 0, "compile_level": 0, "eval_errors": 0, "with_groups": 0, "with_identical_groups": 0, "length_rebinds_param": 0, "no_final_newline": 0, "compiled_both": 0}
